@@ -10,6 +10,8 @@ def _fields(req):
 
 def nontrivial(req, obs):
     # the function was inside the modelled subset, was exported, and at least one argument vector ran to completion
+    if req.startswith("C01.prim\t"):
+        return True
     return obs.startswith("ast ") and " r=" in obs
 
 
@@ -85,6 +87,11 @@ def shrink(req):
         yield from shrink_v(req)
         return
     f = _fields(req)
+    # one argument vector (the failing one survives)
+    vecs = f[3].split(";") if f[3] else []
+    if len(vecs) > 1:
+        for v in vecs:
+            yield "\t".join([f[0], f[1], f[2], v, "-", "-"])
     # whole definitions first (never the function under test)
     chunks = f[1].split("\\n\\n")
     for i in range(len(chunks)):
@@ -139,6 +146,11 @@ SEARCH_SOURCES = [
     "float f1(int a, uint b) { float r = a; r += b; r = r * 0.5f - (float)(a > 2); return -r; }\n",
     "int f1(uint a) { return (int)a >> 31; }\n",
     "int f1(int a) { return 2147483647 + a - -2147483647; }\n",
+    # float comparisons are not a total order (the second argument vector of every function has NaN in every float parameter)
+    "int f1(float a, float b) { int r = 0; if (a < b) { } else { r = 1; } if (a >= b) ; else r += 2; if (!(a <= b)) { r += 4; } return r; }\n",
+    "int f1(float a, float b) { int r = (a == a) ? 1 : 2; r += (a != b) ? 4 : 8; float m = (a < b) ? a : b; return r + ((m > b) ? 16 : 32); }\n",
+    "int f1(float a, float b) { int r = 0; for (int i = 0; i < 3 && a <= b; ++i) { r += 1; } while (!(a > b) && r < 5) { r += 2; } return r; }\n",
+    "int f1(float a, int k, uint u) { return (int)a + (int)(float)k + (int)(uint)a + (int)(float)u; }\n",
 ]
 
 
@@ -161,6 +173,9 @@ SPEC = {
         "gen_sem_expr", "gen_sem_expr_plain", "gen_sem_stmt", "gen_sem_stmts", "scope_block_push_is_append",
         "gen_sem_func", "gen_sem_program",
         "cast_to_literal_dropped_changes_meaning",
+        # comparisons of a Prim are independent (NaN): the "opposite comparison" is not the negation (seeded mutant C01-3)
+        "opposite_comparison_is_not_negation", "ifelse_opposite_condition_changes_meaning",
+        "statement_attribute_names_roundtrip",
         # vector layer (Thm/C01Vec.lean): shape-changing casts, swizzles, numeric constructors, component-wise operators
         "exporter_vec_shape_as_modelled", "swizzle_letters_are_identity", "vector_type_names_roundtrip",
         "vector_intrinsic_table_is_identity", "wide_constants_keep_kind_and_payload",
@@ -190,7 +205,18 @@ SPEC = {
             "Lean's VIr.eval must equal the Rust IR evaluator on 6 argument vectors; plus, in every tier, the exhaustive "
             "operator-nesting stream (1294 one-function programs on a 14-vector grid), the vector-syntax nesting stream (22 outer x 17 "
             "inner forms: swizzle / subscript / cast / constructor / call / prefix / postfix / assignment / comma / ?: in each other, "
-            "374 programs on 3 vectors) and the corpus; non-trivial = function in the "
+            "374 programs on 3 vectors), the statement-shape streams (scalar: 18 conditions — the six float comparisons, negated, "
+            "self-comparisons, && / ||, float against literal / int, side-effecting — x if / if-else with every pair of empty `{ }` / `;` / "
+            "nested-empty / non-empty bodies, x 51 further forms: ?:, && ||, loop conditions of for / while / do with empty and non-empty "
+            "bodies, empty sides around break / continue / return, else-if chains, dangling else, switch, blocks, every statement "
+            "attribute; ~1700 programs on a 16-vector grid with NaN on either / both sides, both zeros, infinities, subnormals, FLT_MAX; "
+            "55 conversion / constant programs on the 32 float x 22 int edge values; vector: 10 component conditions x 28 forms on "
+            "vectors with NaN components), the primitive stream C01.prim (the harness's comparisons and conversions against the "
+            "model's bit-level IEEE ones on ~70 x 70 edge / random patterns) and the corpus; argument vectors of all generated streams "
+            "draw floats from NaNs (quiet, signalling, negative, full payload), both zeros, infinities, subnormals, FLT_MIN / FLT_MAX, the "
+            "conversion limits around 2^24 / 2^31 / 2^32, and ints from 0, +-1, INT_MIN(+1), INT_MAX, UINT_MAX(-1), 31 / 32 / 33, rounding "
+            "boundaries; the second vector of every function has NaN in every float parameter; statement attributes are evaluated through "
+            "(hints) and must stay on their statements in order; non-trivial = function in the "
             "modelled subset, exported, and at least one vector ran to completion",
     "level_text": "Scalar subset (bool/int/uint/float, literal int/float; constants, locals, static globals, every IntrinsicOp the "
                   "exporter accepts, ?:, comma, casts, calls with in/out/inout, 46 pure built-ins; all statement forms incl. switch): the "
@@ -209,9 +235,19 @@ SPEC = {
                   "swizzle letters, vector type names and the 11 vector-only "
                   "built-in names are proved to round-trip; cast chains are proved not collapsible (scalar_cast_then_widen_differs, "
                   "dropping_inner_shape_cast_changes_meaning: the tree without the inner cast evaluates differently — seeded mutant "
-                  "C01-2 also breaks exporter_vec_shape_as_modelled and exporter_shape_as_modelled). Operator, literal, intrinsic, "
+                  "C01-2 also breaks exporter_vec_shape_as_modelled and exporter_shape_as_modelled). The six float comparisons are "
+                  "independent fields of the quantified Prim: opposite_comparison_is_not_negation exhibits the IEEE-754 interpretation "
+                  "(NaN) under which `a >= b` is not `!(a < b)` etc., and ifelse_opposite_condition_changes_meaning proves that the tree "
+                  "seeded mutant C01-3 emits (`if (<opposite of c>) B` for `if (c) { } else B`) evaluates differently from the IR while "
+                  "the modelled tree agrees; exporter_shape_as_modelled now covers every arm of generate_statement (one unguarded arm per "
+                  "StatementKind, each textually the modelled one: statementArmsAsModelled, ifElseArmAsModelled, the attribute wrapper, "
+                  "generate_for_init), every arm of generate_expression (one unguarded arm per variant; leaf / operator / call / ternary "
+                  "arms pinned) and the call / variable-definition helpers. Operator, literal, intrinsic, "
                   "swizzle tables and the shapes of the arms are re-extracted from the source on every run; both models are compared "
-                  "with the real exporter's trees and the Lean IR semantics with the harness's evaluators on generated programs. "
+                  "with the real exporter's trees and the Lean IR semantics with the harness's evaluators on generated programs, under a "
+                  "concrete interpretation whose comparisons and int<->float conversions are the IEEE-754 / Direct3D ones (NaN unordered, "
+                  "+0 == -0, truncation, NaN -> 0, saturation, round-to-nearest-even) and whose arithmetic and built-ins satisfy no "
+                  "algebraic law. "
                   "Partial with respect to the property's quantifier: the vector layer has no assignment nested inside expressions, no "
                   "increment of vectors, no matrices, structs, arrays, enums, methods, templates, default parameters, overloads, vector built-ins — "
                   "those are covered by the C01.vfn stream only (test, two independent evaluators, both flavours, bit-exact), as are "
@@ -237,12 +273,20 @@ SPEC = {
         "vector replicates, vector -> scalar takes the first component, vector -> shorter vector truncates: typer/src/casting.rs "
         "DimensionCast) and of HLSL's C-like semantics (literal int adapts to the other operand, usual arithmetic conversions, a "
         "scalar operand is replicated, the longer vector truncated, HLSL 2021 short-circuit on scalars only, shift count masked)",
+        "the concrete interpretation of the correspondence runs: comparisons and int<->float conversions are IEEE-754 / Direct3D "
+        "(Model/Ieee.lean on bit patterns = Rust's native f32 comparisons and `as` casts in harness/src/c01/sx.rs, compared on edge "
+        "values by the C01.prim stream): float -> int truncates, NaN -> 0, out of range saturates (D3D11 functional spec ftoi / ftou; "
+        "undefined in SPIR-V); + - * / %, ++/-- on floats and the built-ins are hash-like functions without algebraic laws shared by "
+        "both evaluators (so NaN *production* by arithmetic is not modelled: NaN / inf / -0 enter through arguments and constants)",
+        "statement attributes ([branch], [flatten], [unroll(n)], [loop], [fastopt], [allow_uav_condition]) have no meaning: both "
+        "evaluators and the Lean model see the statement without them; the harness checks that the exporter keeps them in place",
         "for the forms outside the Lean models (C01.vfn): harness/src/c01/virev.rs and vtxev.rs (two Rust evaluators written from the "
         "IR's and HLSL's rules respectively) and the value generator; a wrong reading shared by both would be invisible",
         "names: the emitted identifiers denote the IR's entities (property C15); printing/parsing of the tree (property C09)",
     ],
     "assumptions": [
-        "float arithmetic, int<->float conversions, integer division and every built-in function are abstract primitives shared by "
+        "float arithmetic, the six float comparisons (independent of each other: no order axioms), int<->float conversions, integer "
+        "division and every built-in function are abstract primitives shared by "
         "both semantics (component-wise application of the same primitive for vectors; vector built-ins uninterpreted)",
         "no recursion (HLSL forbids it): call depth bounded by the fuel of Ir.phi / Ast.phi",
         "vector variables are assigned only by a statement-level assignment in the Lean vector layer (none nested in an expression)",
